@@ -27,10 +27,7 @@ func (q Query) Execute(j *journal.Builder, r *Report) *journal.Processor {
 			if !days.Has(d) {
 				return nil
 			}
-			var total float64
-			for _, v := range d.Performance.V1 {
-				total += v
-			}
+			total := performance.Sum(d.Performance.V1)
 			for com, v := range d.Performance.V1 {
 				ss := q.Universe.Locate(com)
 				level, suffix, ok := q.Mapping.Level(strings.Join(ss, ":"))
